@@ -22,7 +22,7 @@ RULE = (
     "BFS over all make_child histories of depth <= D from 3 root states, updates = all "
     "assignments to <= 2 of the fluents f(default false), g(default 1), h(no default), k(o)(default "
     "false) incl. explicit default-valued updates, optional observer call (hash/repr/==) "
-    "after each step; per MAX_ANCESTORS in {1,2,3,20,None}; oracle = dict reference on every "
+    "after each step; per MAX_ANCESTORS in {1,2,3,20,None}; sibling pairs (two children of one state object, all pairs of small updates) for == ; oracle = dict reference on every "
     "state, pairwise ==/hash over the whole explored forest; non-trivial = history with an update "
     "that overrides an earlier value or writes a default value"
 )
@@ -234,6 +234,25 @@ def run_shard(shard, tier, seed):
                 "equal states, different hashes",
                 {"limit": str(limit), "root": root, "hist": ha, "hist2": hb},
             )
+    # siblings: two children of the SAME parent object, compared before anything hashed them (their
+    # own update dictionaries differ although the maps they denote may be equal)
+    for ra, _sa, ha in forest[:120]:
+        for u1 in ups_small:
+            for u2 in ups_small:
+                parent = materialise(w, root, ha)[-1]
+                c1, c2 = parent.make_child(w.umap(u1)), parent.make_child(w.umap(u2))
+                r1, r2 = dict(ra), dict(ra)
+                r1.update(dict(u1))
+                r2.update(dict(u2))
+                acc.count("pairs")
+                eq = c1 == c2
+                want = same(r1, r2)
+                if eq != want:
+                    acc.violation(
+                        "eq-siblings|limit=%s" % limit,
+                        "two children of one state (updates %s and %s): == is %s but their maps are %s vs %s" % (u1, u2, eq, r1, r2),
+                        {"limit": str(limit), "root": root, "hist": ha, "siblings": [list(map(list, u1)), list(map(list, u2))]},
+                    )
     acc.count("traces", len(seen))
     acc.sample({"limit": str(limit), "root": root, "history": seen[next(reversed(seen))] if seen else None})
     return acc
@@ -292,6 +311,15 @@ def replay(case):
         r_i = ref_of(root, hist[:i])
         if not same(w.read(s_i), r_i):
             out.append(("get_value|limit=%s" % limit, "state %d reads %s, reference %s" % (i, w.read(s_i), r_i)))
+    if "siblings" in case:
+        u1, u2 = (tuple(tuple(y) for y in u) for u in case["siblings"])
+        parent = materialise(w, root, hist)[-1]
+        c1, c2 = parent.make_child(w.umap(u1)), parent.make_child(w.umap(u2))
+        r1, r2 = dict(ref_of(root, hist)), dict(ref_of(root, hist))
+        r1.update(dict(u1))
+        r2.update(dict(u2))
+        if (c1 == c2) != same(r1, r2):
+            out.append(("eq-siblings|limit=%s" % limit, "== of two children of one state disagrees with their maps"))
     if "hist2" in case:
         hist2 = tuple((tuple(tuple(y) for y in u), ob) for u, ob in case["hist2"])
         sb = materialise(w, root, hist2)[-1]
